@@ -22,8 +22,41 @@ pub trait CondvarExt {
     ) -> std::sync::LockResult<loom::sync::MutexGuard<'a, T>>
     where
         F: FnMut(&mut T) -> bool;
+
+    /// loom does not model time. For a timed wait the harness models the adversarial case: the
+    /// timeout elapses before any notification arrives (which real time permits for every duration).
+    fn wait_timeout_while<'a, T, F>(
+        &self,
+        guard: loom::sync::MutexGuard<'a, T>,
+        dur: std::time::Duration,
+        condition: F,
+    ) -> std::sync::LockResult<(loom::sync::MutexGuard<'a, T>, TimedOut)>
+    where
+        F: FnMut(&mut T) -> bool;
 }
+
+/// stands in for std's WaitTimeoutResult
+pub struct TimedOut(pub bool);
+impl TimedOut {
+    pub fn timed_out(&self) -> bool {
+        self.0
+    }
+}
+
 impl CondvarExt for loom::sync::Condvar {
+    fn wait_timeout_while<'a, T, F>(
+        &self,
+        mut guard: loom::sync::MutexGuard<'a, T>,
+        _dur: std::time::Duration,
+        mut condition: F,
+    ) -> std::sync::LockResult<(loom::sync::MutexGuard<'a, T>, TimedOut)>
+    where
+        F: FnMut(&mut T) -> bool,
+    {
+        let timed_out = condition(&mut *guard);
+        Ok((guard, TimedOut(timed_out)))
+    }
+
     fn wait_while<'a, T, F>(
         &self,
         mut guard: loom::sync::MutexGuard<'a, T>,
